@@ -1,7 +1,7 @@
 (* Proofs about Model/PermXfer.v and Model/ResolveCheck.v (C04: deferred transfers) *)
 From Coq Require Import ZArith List Bool String.
 From Verif Require Import Lib.Sx Lib.PyStr Lib.PosixPath Lib.Facts Model.Paths Model.Perm Model.PermXfer Model.ResolveCheck
-  Proofs.PosixPathFacts Proofs.Paths Proofs.Perm.
+  Model.PathsSess Proofs.PosixPathFacts Proofs.Paths Proofs.Perm Proofs.PathsSess.
 Import ListNotations.
 Open Scope list_scope.
 Open Scope Z_scope.
@@ -65,4 +65,39 @@ Theorem transfer_target_checked wp hr : check_worker_paths wp hr = true ->
 Proof.
   intros H w Hw st0 bs rest Hc. rewrite (check_worker_paths_sound wp hr H w Hw).
   exact (proj2 (transfer_target_is_authorised [] st0 bs rest Hc)).
+Qed.
+
+(* ---- histories of requests with CWD/CDUP and re-logins in between ---- *)
+Local Close Scope string_scope.
+Definition between_ok (b : between) : Prop :=
+  match b with BLogin _ h _ => abs_wf h | _ => True end.
+Definition sreq_ok (e : sreq) : Prop := match e with SBetween b => between_ok b | SReq _ _ => True end.
+
+Lemma between_step_inv st b : abs_wf (r_cwd st) -> between_ok b ->
+  abs_wf (r_cwd (between_step st b))
+  /\ (r_perms (between_step st b), parts (r_cwd (between_step st b)))
+     = spec_between (r_perms st, parts (r_cwd st)) b.
+Proof.
+  intros Hc Hb. destruct b as [c|b h p|]; cbn [between_step spec_between r_cwd r_perms fst snd].
+  - destruct c as [s ok|ok]; cbn [nav_step].
+    + rewrite (get_paths_spec (r_base st) (r_cwd st) s Hc).
+      destruct ok; cbn [parts]; split; try reflexivity; try assumption.
+      apply normalize_abs_wf. exact (proj2 Hc).
+    + rewrite (cdup_spec (r_base st) (r_cwd st) Hc).
+      destruct ok; cbn [parts]; split; try reflexivity; try assumption.
+      split; [discriminate|apply (spec_cdup_ok _ (proj2 Hc))].
+  - split; [exact Hb|reflexivity].
+  - split; [assumption|reflexivity].
+Qed.
+
+(* every request of every history is decided by the nearest entry, IN THE TABLE OF THE USER LOGGED IN NOW, of the
+   normal form of the argument under the working directory as it is now *)
+Theorem reqs_run_spec h : Forall sreq_ok h -> forall st, abs_wf (r_cwd st) ->
+  reqs_run st h = reqs_spec (r_perms st, parts (r_cwd st)) h.
+Proof.
+  induction 1 as [|e h He Hh IH]; intros st Hc; [reflexivity|].
+  destruct e as [b|f r]; cbn [reqs_run reqs_spec].
+  - destruct (between_step_inv st b Hc He) as [Hc' E]. rewrite <- E. apply IH. exact Hc'.
+  - rewrite (IH st Hc). f_equal.
+    destruct (transfer_target_is_authorised f st [] r Hc) as [E _]. cbv zeta in E. rewrite E. reflexivity.
 Qed.
